@@ -153,7 +153,7 @@ func (p *c10) Run(tier string, seed int64, idx int) core.CaseResult {
 	for k := 0; k < tierN(tier, 3, 7); k++ {
 		l := &yang.Layout{R: r, Quote: 1, Trivia: r.Intn(3), Boundary: -1, CRLF: r.Chance(1, 6)}
 		if r.Chance(1, 3) {
-			l.Indent = core.Pick(r, []string{"\t", "", "    ", " "})
+			l.Indent = core.Pick(r, []string{"\t", "none", "    ", " ", "none"})
 		}
 		t := yang.Render(root, l)
 		res.Ev("requoted_renderings", 1)
